@@ -150,6 +150,16 @@ func CreatePreparedProofBuilderFromPreparedMessages(preparedMessages *preparedme
 	if prepareMessages == nil {
 		pBlockRef = nil
 		pSenders = nil
+	} else if len(prepareMessages) == 0 && preprepareMessage != nil {
+		// the proposer's own weight is a quorum: no PREPARE was needed, the PREPARE part names the proposal and lists nobody
+		pBlockRef = &protocol.BlockRefBuilder{
+			MessageType: protocol.LEAN_HELIX_PREPARE,
+			InstanceId:  preprepareMessage.InstanceId(),
+			BlockHeight: preprepareMessage.BlockHeight(),
+			View:        preprepareMessage.View(),
+			BlockHash:   preprepareMessage.Content().SignedHeader().BlockHash(),
+		}
+		pSenders = []*protocol.SenderSignatureBuilder{}
 	} else {
 		pBlockRef = &protocol.BlockRefBuilder{
 			MessageType: protocol.LEAN_HELIX_PREPARE,
